@@ -1,4 +1,5 @@
 """The checks, one function per property."""
+import itertools
 import json
 import os
 import subprocess
@@ -442,6 +443,12 @@ def c06(tier):
     for c in cases:
         if c["kind"] in ("run", "runs") and s.rng.random() < 0.15:
             c["susp"] = [s.rng.randint(0, 3) for _ in range(s.rng.randint(1, 5))]      # handler and writer futures return Pending
+    for K in (1, 4):
+        for _ in range(30 if tier == "quick" else 300):
+            msgs = random_history(s.rng, QUEUE_VOCAB + ["D !"], s.rng.randint(3, 25), maxunits=3, noise=s.rng.choice([0.0, 0.3]))
+            whole = "".join(msgs)
+            cases.append(run_case(whole, iface="queue%d" % K))
+            cases.append(proc_case(whole, 64, random_chunks(s.rng, len(whole)), iface="queue%d" % K))
     recs = s.execute(cases, "c06")
     rejected = s.validate(recs, "c06")
     s.report_rejected(rejected, "a faulty message was not reported exactly once, or it changed what an earlier unit / a later message did")
@@ -488,8 +495,16 @@ def c10(tier):
         a, c = s.rng.randint(0, 70), s.rng.randint(0, 70)
         msg = "A:E? '%s';:A:E? \"%s\"\nB:D?\n" % ("x" * a, "y" * c)
         cases.append({"kind": "failset", "iface": "main", "N": s.rng.choice([128, 1024]), "stream": b(msg), "chunks": []})
+    # very large buffers and messages (state wider than 16 bits): a 70 000-byte block upload followed by a query, through
+    # process::<131072>, whole and in 1460-byte reads - judged by the monitors, the end conditions and schedule independence
+    for size in ((70000,) if tier == "quick" else (65535, 65536, 70000, 100000)):
+        msg = b"A:K " + block(bytes((k * 7) % 251 for k in range(size))) + b";:B:D?\nB:D?\n"
+        c = procset_case(msg, 131072, [{"chunks": []}, {"chunks": [1460] * (len(msg) // 1460 + 1)}, {"chunks": [65536, 1, 65536]}])
+        c["kind"] = "procdiff"
+        c["expect_out"] = list(b"7\n7\n")
+        cases.append(c)
     recs = s.execute(cases, "c10")
-    s.cov["injected_faults"] = sum(len(r["obs"]["f"]) for r in recs)
+    s.cov["injected_faults"] = sum(len(r["obs"].get("f", [])) for r in recs)
     rejected = s.validate(recs, "c10", chunk=150)
     s.report_rejected(rejected, "process read on before answering, wrote something that is not a response, or did not end at once with the transport's own error")
     s.sample(recs[:1])
@@ -650,6 +665,8 @@ C11_UNITS = [
     (["O", "D", "B"], False, []),
     (["A", "S"], False, ["'x'"]),
     (["MEAS", "ALL"], True, []),
+    (["ROUTe", "Ee"], True, []),
+    (["Xa", "Aa"], False, ["3"]),
     (["LONGmnemonicname", "SUBsystemlevel"], True, []),
     (["LONGmnemonicname", "Wide_identifier_1"], False, ["5"]),
 ]
@@ -676,7 +693,9 @@ def render_c11(units, style):
         out += g("lead")
         if not mns[0].startswith("*") and (ui > 0 or style.get("abs0")):
             out += b":"          # units after the first are written absolute (so that each is valid); the first optionally
-        out += ":".join(spell(m, style.get((ui, "form"), "long"), style.get((ui, "case"), "upper")) for m in mns).encode()
+        forms = style.get((ui, "form"), "long")
+        forms = [forms] * len(mns) if isinstance(forms, str) else forms        # one form per unit, or one per mnemonic
+        out += ":".join(spell(m, f, style.get((ui, "case"), "upper")) for m, f in zip(mns, forms)).encode()
         if q:
             out += b"?"
         if args:
@@ -735,6 +754,11 @@ def c11(tier):
         for form in ("long", "short"):
             for case in ("upper", "lower", "alt"):
                 ins.append(render_c11(units, {(ui, k): v for ui in range(len(units)) for k, v in (("form", form), ("case", case))}))
+        # every mix of short and long mnemonics within one header
+        for ui, (mns, _q, _a) in enumerate(units):
+            for mix in itertools.product(("long", "short"), repeat=len(mns)):
+                if len(set(mix)) > 1:
+                    ins.append(render_c11(units, {(ui, "form"): list(mix), (ui, "case"): s.rng.choice(["upper", "lower", "alt"])}))
         ins.append(render_c11(units, {"eol": b"\r\n"}))
         ins.append(render_c11(units, {"abs0": True}))
         ins.append(render_c11(units, {"abs0": True, (0, "lead"): b" \t", "eol": b" \r\n"}))
@@ -747,7 +771,7 @@ def c11(tier):
                     k = max(k, 1)
                 st[gp] = b"".join(s.rng.choice(WS) for _ in range(k))
             for ui in range(len(units)):
-                st[(ui, "form")] = s.rng.choice(["long", "short"])
+                st[(ui, "form")] = [s.rng.choice(["long", "short"]) for _ in units[ui][0]]
                 st[(ui, "case")] = s.rng.choice(["upper", "lower", "alt"])
             st["eol"] = s.rng.choice([b"\n", b"\r\n"])
             st["abs0"] = s.rng.random() < 0.3
@@ -836,7 +860,7 @@ def c12(tier):
             ("main", '1+-.Ee, \n;', 4 if tier == "quick" else 6, "A:P ", "decimal alphabet after 'A:P '"),
             ("main", '#HhBbQq1278aF, \n"', 3 if tier == "quick" else 5, "A:P ", "radix/block alphabet after 'A:P '"),
             ("main", [97, 34, 39, 10, 59, 44, 32, 35, 49, 255, 195], 4 if tier == "quick" else 5, "A:S ", "string/block alphabet incl. non-UTF-8 bytes after 'A:S '"),
-            ("main", 'A1,\n ', 6 if tier == "quick" else 8, "A:P 1,1,1,1,1,1,1,1,1", "parameter count around MAX_ARGS")]
+            ("main", 'A1,\n \'', 5 if tier == "quick" else 7, "A:P 1,1,1,1,1,1,1,1,1", "parameter count around MAX_ARGS")]
     raw = os.path.join(s.wd, "c12.raw")
     for (iface, sigma, L, prefix, label) in jobs:
         s.model("MCScpiSyntax", syntax_params(iface, sigma, L, prefix, starts, True), raw_replay=raw,
@@ -1023,13 +1047,21 @@ def tree_params(pool, maxdecls, mode, emit_sets, dedup=True, maxattrs=1):
         ("EmitSets", es), ("Dedup", "TRUE" if dedup else "FALSE")])
 
 
+BUILTIN_FN_NAMES = ["system_version", "system_error_count", "system_error_next"]
+
+
 def set_desc(name, pool, chosen, std, err):
     attrs = (["StandardCommands"] if std else []) + (["ErrorCommands"] if err else [])
     cmds = []
     for k, i in enumerate(chosen):
         cmd = pool[i - 1]
         beh = {"k": "const", "ty": "u8", "v": (k + 1) % 200} if cmd.endswith("?") else {"k": "ok"}
-        cmds.append({"cmd": cmd, "args": [], "beh": beh, "async": k % 2 == 0})
+        c = {"cmd": cmd, "args": [], "beh": beh, "async": k % 2 == 0}
+        if (std or err) and k < len(BUILTIN_FN_NAMES):
+            # user handlers that carry the Rust names of the traits' built-in handlers: dispatch must stay by header, never by name
+            c["fn"] = BUILTIN_FN_NAMES[(k + len(chosen)) % len(BUILTIN_FN_NAMES)]
+            c["async"] = False
+        cmds.append(c)
     return {"name": name, "attrs": attrs, "K": 4, "caps": [], "ns": [64], "cmds": cmds, "abs_only": True}
 
 
@@ -1154,6 +1186,8 @@ def tree_check(prop, tier):
         q = n % 3 == 0
         wide["cmds"].append({"cmd": "CHANnel%d:LEVel%s" % (n, "?" if q else ""), "args": [],
                              "beh": {"k": "const", "ty": "u16", "v": n} if q else {"k": "ok"}, "async": n % 2 == 0})
+    for k, fnm in enumerate(BUILTIN_FN_NAMES):
+        wide["cmds"][k * 3].update({"fn": fnm, "async": False})
     descs.append(wide)
     gen = os.path.join(C.HARNESS, "treegen", "src", "gen")
     os.makedirs(gen, exist_ok=True)
@@ -1313,7 +1347,7 @@ CHECKS["C14"] = lambda tier: tree_check("C14", tier)
 
 # ----------------------------------------------------------------------- C09
 QUEUE_VOCAB = ["C", "F", "G", "Z", "N 999", "N", "T 5", "SYST:ERR?", "SYST:ERR:NEXT?", "SYST:ERR:COUN?", "Q?", "H?", "SYST:VERS?",
-               "SYST:ERR? 1", "SYST:ERR:COUN? 0", "SYST:ERR:NEXT? #H1", "SYST:VERS? 'x'", "SYST:ERR", "SYST:ERR:COUN"]
+               "FIRM:VERS?", "DIAG:COUN?", "DIAG:NEXT?", "SYST:ERR? 1", "SYST:ERR:COUN? 0", "SYST:ERR:NEXT? #H1", "SYST:VERS? 'x'", "SYST:ERR", "SYST:ERR:COUN"]
 QUEUE_CODES = [-113, -104, -120, -224, -350, -115]
 
 
@@ -1820,6 +1854,11 @@ def c13(tier):
     for _ in range(200 if tier == "quick" else 3000):
         cases.append({"kind": "multi", "iface": "resp", "in": list(("R:F64? %d;:R:F32? %d\n" % (s.rng.getrandbits(64), s.rng.getrandbits(32))).encode()),
                       "writers": [{"k": "rec"}, {"k": "heapless", "cap": 2048}], "procs": [{"N": 1024, "chunks": []}]})
+    for _ in range(150 if tier == "quick" else 1500):
+        msgs = random_history(s.rng, ["L:S 'ab'", "L:S \"x\ny\"", "L:B #13abc", "L:N 7", "L:Q? 'q'", "L:P 1,'s',#11x", "L:N 999", "L:Z", "L:S"], s.rng.randint(1, 5), maxunits=3)
+        whole = "".join(msgs)
+        cases.append({"kind": "multi", "iface": "life", "in": b(whole), "writers": [{"k": "rec"}, {"k": "heapless", "cap": 64}],
+                      "procs": [{"N": 64, "chunks": random_chunks(s.rng, len(whole))}]})
     for K in (1, 4, 10):
         for _ in range(60 if tier == "quick" else 600):
             msgs = random_history(s.rng, QUEUE_VOCAB + ["D !"], s.rng.randint(3, 20), maxunits=3)
